@@ -11,7 +11,7 @@ pub const ORDERS: [&str; 5] = ["ascending", "descending", "zigzag", "organpipe",
 pub const ACTIONS: [&str; 12] = ["drop", "clear", "iter-forward", "iter-backward", "iter-partial-drop", "lookups", "remove-ascending", "remove-descending", "iter-alternating", "iter-untouched-drop", "iter-front-drop", "iter-back-drop"];
 /// lookups done after building and before the action: they fold the chain (a splay brings the key to the root)
 pub const FOLDS: [&str; 5] = ["none", "get-max", "get-min", "get-mid", "next-of-min"];
-pub const SHAPES: [&str; 3] = ["comb", "grid", "nested"];
+pub const SHAPES: [&str; 4] = ["comb", "grid", "nested", "lattice"];
 pub const CORNERS: [&str; 4] = ["top-left", "bottom-left", "top-right", "bottom-right"];
 
 #[derive(Clone, Debug, PartialEq)]
@@ -83,6 +83,14 @@ fn sq(x0: f64, y0: f64, x1: f64, y1: f64) -> Polygon<f64> {
 
 /// large parametric operands: (A, B, bounding extent of A)
 pub fn big_operands(shape: usize, n: u64, corner: usize) -> (MultiPolygon<f64>, MultiPolygon<f64>) {
+    if SHAPES[shape] == "lattice" {
+        // n horizontal bars against n vertical bars: n^2 proper crossings x 4, the number of sweep events grows
+        // quadratically with the number of input edges
+        let k = n as f64;
+        let a = MultiPolygon((0..n).map(|i| sq(0.0, 2.0 * i as f64 + 0.5, 2.0 * k, 2.0 * i as f64 + 1.5)).collect());
+        let b = MultiPolygon((0..n).map(|j| sq(2.0 * j as f64 + 0.5, 0.0, 2.0 * j as f64 + 1.5, 2.0 * k)).collect());
+        return (a, b);
+    }
     let (a, w, h): (MultiPolygon<f64>, f64, f64) = match SHAPES[shape] {
         "comb" => (MultiPolygon((0..n).map(|i| sq(0.0, 2.0 * i as f64, 100.0, 2.0 * i as f64 + 1.0)).collect()), 100.0, 2.0 * n as f64 - 1.0),
         "grid" => {
@@ -293,7 +301,8 @@ fn run_scenario(sc: &Scenario) -> String {
         }
         Scenario::Bool { shape, n, corner, op, .. } => {
             let (a, b) = big_operands(*shape, *n, *corner);
-            let edges: u64 = a.0.iter().map(|p| (p.exterior().0.len() - 1 + p.interiors().iter().map(|h| h.0.len() - 1).sum::<usize>()) as u64).sum();
+            let count = |m: &MultiPolygon<f64>| -> u64 { m.0.iter().map(|p| (p.exterior().0.len() - 1 + p.interiors().iter().map(|h| h.0.len() - 1).sum::<usize>()) as u64).sum() };
+            let edges: u64 = count(&a) + count(&b) - 4;
             verif_hooks::reset(u64::MAX);
             let r = a.boolean(&b, crate::exec::OPS[*op]);
             let rings: usize = r.0.iter().map(|p| 1 + p.interiors().len()).sum();
